@@ -25,6 +25,7 @@ use std::time::{Duration, Instant};
 const PROPERTY: &str = "C19";
 
 struct Budget {
+    duo: u64,
     f0: u64,
     enum_workloads: u64,
     random_faults: u64,
@@ -34,11 +35,12 @@ struct Budget {
 fn budget(tier: &str) -> Budget {
     let scale = std::env::var("VERIF_SCALE").ok().and_then(|s| s.parse::<f64>().ok()).unwrap_or(1.0);
     let b = if tier == "thorough" {
-        Budget { f0: 100_000, enum_workloads: 5_000, random_faults: 200_000, selftest: 1_000 }
+        Budget { duo: 40_000, f0: 100_000, enum_workloads: 5_000, random_faults: 200_000, selftest: 1_000 }
     } else {
-        Budget { f0: 3_000, enum_workloads: 150, random_faults: 3_000, selftest: 64 }
+        Budget { duo: 1_500, f0: 3_000, enum_workloads: 150, random_faults: 3_000, selftest: 64 }
     };
     Budget {
+        duo: (b.duo as f64 * scale) as u64,
         f0: (b.f0 as f64 * scale) as u64,
         enum_workloads: (b.enum_workloads as f64 * scale) as u64,
         random_faults: (b.random_faults as f64 * scale) as u64,
@@ -100,6 +102,8 @@ struct Record {
     digest: Digest,
     violations: Vec<Violation>,
     spec: Option<RunSpec>, // kept only for violating runs and a few samples
+    /// two invocations at the same time: the pair and the interleaving that was played
+    duo: Option<([RunSpec; 2], Vec<u8>)>,
     expected_failure: bool,
     calls: usize,
 }
@@ -139,6 +143,7 @@ fn record(phase: &str, idx: u64, sub: u64, spec: &RunSpec, exp: &model::Expect, 
         digest: obs.digest(),
         violations,
         spec: if keep_spec { Some(spec.clone()) } else { None },
+        duo: None,
         expected_failure: exp.failure.is_some() || (obs.injected.iter().any(|i| i.hard()) && obs.exit != Some(0)),
         calls: obs.calls.len(),
     }
@@ -189,6 +194,97 @@ fn run_phase(seed: u64, phase: &'static str, total: u64, pool: Arc<Pool>, thread
         recs
     });
     res.into_iter().flat_map(|(_, r)| r).collect()
+}
+
+fn make_duo(seed: u64, idx: u64, pool: &Pool) -> [RunSpec; 2] {
+    let mut rng = Rng::new(mix(seed, "duo", idx));
+    wgen::gen_duo(&mut rng, pool)
+}
+
+/// Two invocations at the same time in one directory, interleaved call by call
+/// by the simulator (seeded), judged together.
+fn run_duo_phase(seed: u64, total: u64, pool: Arc<Pool>, threads: usize) -> Vec<Record> {
+    let stop = Arc::new(AtomicBool::new(false));
+    let res = simcommon::par::run_indexed(threads, 0, total, 64 << 20, stop, move |w, idx| {
+        let env = env_for(w);
+        let specs = make_duo(seed, idx, &pool);
+        let mut rng = Rng::new(mix(seed, "duo-schedule", idx));
+        // a few scheduling styles: uniform, or long stretches of one process
+        let style = rng.below(3);
+        let mut last = 0usize;
+        let mut pick = |n: usize| -> usize {
+            if n <= 1 {
+                return 0;
+            }
+            let k = match style {
+                0 => rng.usize_below(n),
+                1 => {
+                    if rng.chance(4, 5) {
+                        last.min(n - 1)
+                    } else {
+                        rng.usize_below(n)
+                    }
+                }
+                _ => {
+                    if rng.chance(1, 2) {
+                        0
+                    } else {
+                        n - 1
+                    }
+                }
+            };
+            last = k;
+            k
+        };
+        let (obs, schedule) = exec::run_duo(&env, &specs, &mut pick);
+        let violations = model::judge_duo(&specs, &obs);
+        let mut d = Digest::new();
+        for o in &obs {
+            d.u64(o.digest().short());
+        }
+        let switches = schedule.windows(2).filter(|w| w[0] != w[1]).count();
+        Record {
+            phase: "duo".into(),
+            idx,
+            sub: 0,
+            tuple: format!("duo|{}+{}|switches={}|{}+{}", specs[0].mode_name(), specs[1].mode_name(), switches.min(12), model::outcome_class(&obs[0]), model::outcome_class(&obs[1])),
+            nontrivial: switches > 0,
+            injected: vec![],
+            outcome: format!("{}+{}", model::outcome_class(&obs[0]), model::outcome_class(&obs[1])),
+            digest: d,
+            duo: if !violations.is_empty() || idx < 2 { Some((specs.clone(), schedule)) } else { None },
+            violations,
+            spec: None,
+            expected_failure: false,
+            calls: obs[0].calls.len() + obs[1].calls.len(),
+        }
+    });
+    res.into_iter().map(|(_, r)| r).collect()
+}
+
+fn duo_json(specs: &[RunSpec; 2], schedule: &[u8]) -> Value {
+    json!({"duo": [specs[0].to_json(), specs[1].to_json()], "schedule": schedule})
+}
+
+fn replay_duo(env: &Env, v: &Value) -> Option<(Vec<Violation>, [Observed; 2])> {
+    let d = v.get("duo")?.as_array()?;
+    let a = RunSpec::from_json(d.first()?).ok()?;
+    let b = RunSpec::from_json(d.get(1)?).ok()?;
+    let sched: Vec<u8> = v.get("schedule").and_then(|s| s.as_array()).map(|a| a.iter().map(|x| x.as_u64().unwrap_or(0) as u8).collect()).unwrap_or_default();
+    let specs = [a, b];
+    let mut pos = 0usize;
+    let mut pick = |n: usize| -> usize {
+        // the recorded choice is a process index; translate to an index among the blocked ones
+        let want = sched.get(pos).copied().unwrap_or(0) as usize;
+        pos += 1;
+        if n == 2 {
+            want.min(1)
+        } else {
+            0
+        }
+    };
+    let (obs, _) = exec::run_duo(env, &specs, &mut pick);
+    Some((model::judge_duo(&specs, &obs), obs))
 }
 
 /// Run the same generated runs twice (different worker threads, different
@@ -254,6 +350,25 @@ fn write_replay(seed: u64, rec: &Record, spec: &RunSpec, v: &Violation, obs: &Ob
 fn replay(path: &str) -> i32 {
     let txt = std::fs::read_to_string(path).unwrap_or_else(|e| simcommon::harness_error(&format!("{}: {}", path, e)));
     let v: Value = simcommon::serde_json::from_str(&txt).unwrap_or_else(|e| simcommon::harness_error(&format!("{}: {}", path, e)));
+    if v.get("duo").is_some() {
+        let env = env_for(0);
+        let r = replay_duo(&env, &v);
+        let _ = std::fs::remove_dir_all(scratch_base());
+        return match r {
+            Some((vs, obs)) if !vs.is_empty() => {
+                for x in &vs {
+                    println!("REPLAY: {} — {}", x.class, x.detail);
+                }
+                print!("--- first invocation\n{}--- second invocation\n{}", obs[0].log, obs[1].log);
+                println!("VIOLATION property={} replay={}", PROPERTY, path);
+                1
+            }
+            _ => {
+                println!("REPLAY: no violation reproduced");
+                0
+            }
+        };
+    }
     let spec = RunSpec::from_json(v.get("spec").unwrap_or(&Value::Null)).unwrap_or_else(|e| simcommon::harness_error(&e));
     let env = env_for(0);
     let obs = exec::run(&env, &spec);
@@ -348,6 +463,14 @@ fn check(tier: &str) -> i32 {
         all.extend(recs);
     }
 
+    {
+        let t = Instant::now();
+        let recs = run_duo_phase(seed, b.duo, pool.clone(), threads);
+        eprintln!("[c19] phase duo: {} pairs of concurrent invocations, {:.1}s", recs.len(), t.elapsed().as_secs_f64());
+        phase_counts.insert("duo".to_string(), json!({"jobs": b.duo, "runs": recs.len()}));
+        all.extend(recs);
+    }
+
     // ---- triage
     let known = findings::load(PROPERTY);
     let mut by_sig: BTreeMap<String, (usize, u64)> = BTreeMap::new(); // sig -> (first record index, count)
@@ -372,6 +495,40 @@ fn check(tier: &str) -> i32 {
         }
         if violation_lines.len() >= 12 {
             new_violations += 1;
+            continue;
+        }
+        if let Some((specs, schedule)) = &r.duo {
+            // concurrent invocations: confirm by replaying the recorded interleaving
+            let val = duo_json(specs, schedule);
+            let mut confirmed = None;
+            for _ in 0..3 {
+                if let Some((vs, obs)) = replay_duo(&env, &val) {
+                    if let Some(x) = vs.iter().find(|x| x.class == v.class) {
+                        confirmed = Some((x.clone(), obs));
+                        break;
+                    }
+                }
+            }
+            match confirmed {
+                None => {
+                    unconfirmed += 1;
+                    eprintln!("[c19] concurrent {} at duo#{} did not replay", v.class, r.idx);
+                }
+                Some((x, obs)) => {
+                    let dir = format!("{}/replays/{}", simcommon::verif_dir(), PROPERTY);
+                    let _ = std::fs::create_dir_all(&dir);
+                    let path = format!("{}/{}-duo-{}.json", dir, seed, r.idx);
+                    let out = json!({"property": PROPERTY, "seed": seed.to_string(), "violation": {"class": x.class, "detail": x.detail, "signature": x.signature},
+                        "duo": val["duo"], "schedule": val["schedule"],
+                        "observed": {"exit": [obs[0].exit, obs[1].exit], "event_logs": [obs[0].log.lines().take(60).collect::<Vec<_>>(), obs[1].log.lines().take(60).collect::<Vec<_>>()]},
+                        "how_to_replay": format!("./check {} --replay {}", PROPERTY, path)});
+                    std::fs::write(&path, simcommon::serde_json::to_string_pretty(&out).unwrap() + "\n").unwrap();
+                    new_violations += 1;
+                    vio_samples.push(json!({"class": x.class, "detail": x.detail, "signature": x.signature, "count": count, "argv": [specs[0].argv(), specs[1].argv()], "schedule_len": schedule.len()}));
+                    violation_lines.push(format!("VIOLATION property={} replay={}", PROPERTY, path));
+                    eprintln!("[c19] concurrent invocations: {} ({} runs): {}", x.class, count, x.detail);
+                }
+            }
             continue;
         }
         let spec = r.spec.clone().unwrap();
@@ -453,6 +610,7 @@ fn check(tier: &str) -> i32 {
     ev.cov("rule", json!("one evaluation = one execution of the real svgbob_cli binary under the libc interposer, judged against the reference model. Phases: f0 fault-free, enum = every single-fault placement (kind x call site, sampled byte offsets) along a fault-free run, f1 random transparent faults, f2 random hard faults. A case is non-trivial if a document was due or a fault fired; distinct = distinct (mode, option subset, output kind, set of fired fault kinds by call and role, exit class) tuples."));
     ev.cov("samples", json!(samples));
     ev.cov("phases", json!(phase_counts));
+    ev.cov("concurrent_invocations", json!({"pairs": b.duo, "pairs_with_at_least_one_switch": all.iter().filter(|r| r.phase == "duo" && r.nontrivial).count(), "note": "two real CLI processes in one directory, released one tracked libc call at a time through the interposer's turnstile; the interleaving is chosen by the seed and recorded for replay"}));
     ev.cov("faults_fired", json!(fired));
     ev.cov("outcomes", json!(outcomes));
     ev.cov("modes", json!(modes));
